@@ -717,6 +717,15 @@ pub fn gen_cap(rng: &mut Rng, len: usize, extents: &[usize]) -> usize {
 }
 
 pub fn gen_growing_policy(rng: &mut Rng) -> PolSpec {
+    if rng.chance(1, 15) {
+        // a policy that answers "no change" once or twice before it grows: it never refuses
+        let inner = match rng.below(3) {
+            0 => PolSpec::Std,
+            1 => PolSpec::Plus(rng.range(2, 9)),
+            _ => PolSpec::Times(3),
+        };
+        return PolSpec::Hesitate(1 + rng.below(2), Box::new(inner));
+    }
     match rng.below(9) {
         6 => PolSpec::Times(rng.range(3, 5)),
         7 => PolSpec::JumpTo(*rng.pick(&[16usize, 50, 200, 1000])),
@@ -744,6 +753,7 @@ pub fn tame_policy(p: &PolSpec, input_len: usize) -> PolSpec {
         PolSpec::DoubleUntilLimited(t, _) if *t >= 65536 => p.clone(),
         PolSpec::DoubleUntilLimited(_, l) => PolSpec::DoubleUntilLimited(1 << 20, (*l).max(1 << 30)),
         PolSpec::RefuseFirst(n, inner) => PolSpec::RefuseFirst(*n, Box::new(tame_policy(inner, input_len))),
+        PolSpec::Hesitate(n, inner) => PolSpec::Hesitate(*n, Box::new(tame_policy(inner, input_len))),
         _ => PolSpec::Std,
     }
 }
